@@ -5,6 +5,7 @@ from harness import gen
 from harness.framework import Suite
 
 PID = "C08"
+READY = False
 LEAN_MODS = ["SwcVerif.Props.C08"]
 THEOREMS = []
 TRUSTED = ["hand-written models Model/Branches.lean of the traversal callbacks (tied by the c08.decomp correspondence suite)"]
@@ -56,6 +57,15 @@ class Decomp(Suite):
         except Exception as e:  # noqa: BLE001
             res["bt"] = {"exc": type(e).__name__, "msg": str(e)[:200]}
         return res
+
+    def lines(self, case, res):
+        if "exc" in res:
+            return []
+        t = case["tree"]
+        a = f"ids={gen.ints(range(t['n']))} pids={gen.ints(t['pids'])}"
+        sl = lambda ls: ";".join(gen.ints(b).replace("_", "") for b in ls)
+        return [("branches " + a, sl(res["branches"])), ("paths " + a, sl(res["paths"])),
+                ("furcs " + a, gen.ints(res["furcations"]).replace("_", "")), ("tips " + a, gen.ints(sorted(res["tips"])).replace("_", ""))]
 
     def oracle(self, case, res):
         t = case["tree"]
